@@ -122,6 +122,11 @@ fn id0_of(fam: &str, i: u64) -> ChannelId {
     ChannelId::new_from_peer_id_and_oid(&peer, dbid)
 }
 
+/// the concrete channel ids of a graph, as byte strings (TLC only compares them)
+fn cid_hex(g: &Graph) -> Vec<String> {
+    (1..=g.nids).map(|i| format!("id:{}", hex::encode(id0_of(&g.fam, i).as_slice()))).collect()
+}
+
 fn perm_of(i: u64) -> ChannelId {
     ChannelId::new(&[0xA0u8.wrapping_add(i as u8); 32])
 }
@@ -678,9 +683,10 @@ fn explore() {
             }
             frontier = next;
         }
+        let cid = intern.vals(&cid_hex(g));
         for (s, e) in rows.into_iter().enumerate() {
             let x = e.is_some();
-            o.put(&json!({"id": base + s, "g": g.ci, "root": s == 0, "x": x,
+            o.put(&json!({"id": base + s, "g": g.ci, "root": s == 0, "x": x, "cid": cid,
                           "pre": intern.proj(&projs[s]), "e": e.unwrap_or_default(),
                           "path": paths[s].iter().map(|r| r + 1).collect::<Vec<_>>()}));
         }
@@ -711,11 +717,12 @@ fn run_seqs() {
         let mut w = World::new(&g);
         let reqs = v["reqs"].as_array().cloned().unwrap_or_default();
         let (mut pre, _) = w.observe();
+        let cid = intern.vals(&cid_hex(&g));
         for (i, r) in reqs.iter().enumerate() {
             let resp = w.apply(r);
             let (post, _) = w.observe();
             o.put(&json!({"seq": nseq, "step": i, "g": g.ci, "fam": g.fam, "nids": g.nids, "nmax": g.nmax,
-                          "pre": intern.proj(&pre), "req": r,
+                          "cid": cid, "pre": intern.proj(&pre), "req": r,
                           "resp": {"ok": resp.ok, "v": intern.vals(&resp.v), "msg": resp.msg},
                           "post": intern.proj(&post)}));
             pre = post;
